@@ -171,8 +171,12 @@ impl Documents {
         // to the file after a newer one, and the last compilation would read the stale text.
         let _write_guard = self.1.lock().await;
 
+        // Write the new text next to the file and rename it into place. Creating the file itself
+        // truncates it first, and a compilation that is still running (for the previous request)
+        // could read it empty or half written; such a result also poisons the module cache.
+        let tmp_path = format!("{}.tmp", uri.path());
         let mut file =
-            File::create(uri.path())
+            File::create(&tmp_path)
                 .await
                 .map_err(|err| DocumentError::UnableToCreateFile {
                     path: uri.path().to_string(),
@@ -189,6 +193,13 @@ impl Documents {
         // `tokio::fs::File` performs writes in the background: without a flush the bytes (and any
         // write error) may still be outstanding when the compilation thread reads the file.
         file.flush()
+            .await
+            .map_err(|err| DocumentError::UnableToWriteFile {
+                path: uri.path().to_string(),
+                err: err.to_string(),
+            })?;
+        drop(file);
+        tokio::fs::rename(&tmp_path, uri.path())
             .await
             .map_err(|err| DocumentError::UnableToWriteFile {
                 path: uri.path().to_string(),
